@@ -12,7 +12,9 @@ RULE = ("random, jittered-lattice, exactly square and exactly hexagonal centre s
         "max_distance from tight to infinite; non-trivial = at least 3 cells; distinct = the centre set and cut-off")
 TRUSTED = ["Model/Tessellation.v (vertex / edge interning, signed cell key, reversal) tied to tessellation.create_lattice_elements / "
            "create_lattice by exact correspondence; Qhull (scipy.spatial.Voronoi) is an oracle: the harness calls it with the same "
-           "centres and hands its regions to the model; round() is an oracle"]
+           "centres and hands its regions to the model; round() is an oracle",
+           "Model/RegionFilter.v tied exactly (over Q, squared distances) to tessellation.remove_infinite_regions on Qhull's regions and vertices; cut-offs "
+           "within 1e-9 of a region's diameter are skipped"]
 ASSUMPTIONS = ["regions in which two consecutive corners round to the same point (zero-length ridge after rounding) are not judged"]
 TESTED_NOT_PROVED = ["which regions survive the cut-off is proved for the model (C19_cells_are_the_regions_below_the_cut_off, order independence, monotonicity) and tied "
                      "exactly to remove_infinite_regions on Qhull's output; that each surviving region becomes one cell with the region's rounded corners as cycle is evaluated by the oracle against "
